@@ -11,6 +11,19 @@ LEVEL_NOTE = ("Trusted base: TLC 1.8 and the TLA+ modules in spec/ (checked with
               "the evidence file (tlc_runs); beyond them TLC random simulation of the same specification is used.")
 
 CLAIMS = {
+    "C04": ("Multi.tla: an observed bandit and an interferer (another bandit with another seed, draws from and re-seeding of the "
+            "process-global generators) interleave in every possible way, process-global state is an explicit variable, "
+            "Inv_C04_Isolation says the observed outputs are a function of the observed history; every TLC interleaving is "
+            "executed on real objects for the policy combinations (incl. default-constructed tuples, int and str arms) and "
+            "the digest compared with the solo run, also in fresh interpreters under PYTHONHASHSEED 0/1/random", "6.C04"),
+    "C18": ("Life.tla graphs replayed under every container type (list, ndarray C/Fortran/non-contiguous view/int dtype, "
+            "pandas Series/DataFrame) and compared edge by edge; byte snapshots of every caller object around every call; "
+            "Orient.tla specifies how a Series is read (Inv_C18_Unambiguous) and every valid case is executed against the "
+            "equivalent 2-D array; arms list / parameter objects / feature dictionary checked for aliasing", "6.C18"),
+    "C20": ("Mab.tla Inv_C20_Rename / RowOrder / ShiftScale on the documented statistics (all label bijections, all row "
+            "permutations, exact shift and scale identities) checked by TLC; Life.tla graphs replayed on the original and the "
+            "transformed problem (int/str/float labels; permuted rows for context-free, linear, Radius, LSHNearest; shifted "
+            "and scaled rewards) from the same seed and compared edge by edge", "6.C20"),
     "C05": ("Par.tla: seeds drawn once from the main stream, every ordered exact cover of the rows, every interleaving of "
             "workers for sequential / thread / process backends, symbolic stream positions (Inv_C05_RowLocal/Partition/"
             "FitOrder), CodePartition arithmetic (Inv_C05_ExactCover for n<=64, n_jobs in -66..66); every TLC schedule is "
@@ -80,6 +93,9 @@ TECH = {p: "explicit TLA+ spec checked by TLC; recorded executions of the real l
            "(code->spec trace validation, TLC prints the documented result set per query)" for p in ("C03", "C11", "C12")}
 TECH["C05"] = ("explicit TLA+ spec of partitioning/seeding/scheduling checked by TLC; every TLC schedule executed on the real "
                "chunk-level entry point; recorded joblib executions validated by TracePar.tla")
+TECH["C04"] = "explicit TLA+ spec of interleaved instances with process-global state; every TLC interleaving executed on real objects, digests compared with the solo run and across interpreters / hash seeds"
+TECH["C18"] = "explicit TLA+ spec (Life, Orient); the same TLC graph replayed under every container type and compared edge by edge, caller objects snapshotted"
+TECH["C20"] = "TLC-checked invariance of the documented statistics (Mab.tla) + the same TLC graph replayed on original and transformed problems"
 TECH["C15"] = "explicit TLA+ spec of the simulation protocol; TLC-emitted public-API scripts replayed against Simulator.run()"
 TECH["C16"] = "explicit TLA+ spec of split/statistics/evaluator over exact rationals; recorded Simulator runs validated by TLC"
 
